@@ -160,3 +160,23 @@ Theorem tessellator_unscaled_threshold_refuted : exists tol,
   PrimFloat.ltb (scaledTolerance tol) (scaledTolerance_old tol) = true.
 Proof. exact tess_unscaled_old_refuted. Qed.
 Print Assumptions tessellator_unscaled_threshold_refuted.
+
+(** Mercator at the poles ------------------------------------------------------ *)
+Theorem mercator_unproject_exp_overflow_is_north_pole : forall fexp p pt,
+  fexp (merc_exp_arg p pt) = infinity ->
+  s2_LatLng_Lat (merc_ToLatLng fexp p pt) = f_pi_2 /\
+  r3_Vector_Z (s2_Point_Vector (s2_PointFromLatLng (merc_ToLatLng fexp p pt))) = 1%float.
+Proof. exact merc_to_latlng_overflow. Qed.
+Print Assumptions mercator_unproject_exp_overflow_is_north_pole.
+
+Theorem mercator_unproject_exp_underflow_is_south_pole : forall fexp p pt,
+  fexp (merc_exp_arg p pt) = 0%float ->
+  s2_LatLng_Lat (merc_ToLatLng fexp p pt) = PrimFloat.opp f_pi_2 /\
+  r3_Vector_Z (s2_Point_Vector (s2_PointFromLatLng (merc_ToLatLng fexp p pt))) = (-1)%float.
+Proof. exact merc_to_latlng_underflow. Qed.
+Print Assumptions mercator_unproject_exp_underflow_is_south_pole.
+
+Theorem mercator_without_overflow_branch_gives_nan_refuted :
+  go_isnan (math_Asin (PrimFloat.div (PrimFloat.sub infinity 1) (PrimFloat.add infinity 1))) = true.
+Proof. exact merc_without_overflow_branch_refuted. Qed.
+Print Assumptions mercator_without_overflow_branch_gives_nan_refuted.
